@@ -20,6 +20,16 @@ BUILT = {
             "running circuit; each event is compared with a reference FSM interpreter: result, "
             "state, output, exact action/event order and the fsm_event_data every action reads",
             "refinement against an executable reference FSM interpreter"),
+    'C07': ('exploration',
+            "seeded search over TimeDate/TimeSpan configurations (numeric interval sets incl. "
+            "microsecond and end-of-day endpoints), start and reconfig instants on a "
+            "sub-millisecond grid around boundaries, wake-up latency, callback and clock-read "
+            "cost, stalls, forward/backward clock jumps and DST-like offset changes over 1-4 "
+            "virtual days incl. year end and leap day; ~100-300 exact probes per run compare every "
+            "output with an independent calendar predicate outside the guard band; the real "
+            "cron task (sleep/wake/reset/reload logic incl. its blocking sub-millisecond sleep) "
+            "runs on the virtual wall clock",
+            "independent calendar-predicate oracle sampled by exact probes"),
     'C04': ('exploration',
             "seeded search over timed FSM / Timer / InputExp configurations, event histories "
             "placed before/at/after predicted expirations, and schedules (latency, cost, tie "
